@@ -5,8 +5,9 @@ import re
 
 from harness import core, inputs, trees
 
-GEN = ['gen_escapes', 'gen_dispatch']
-THEOREMS = ['C18_dispatch', 'C18_options_forwarded', 'C18_render', 'C18_toc_any_tree', 'C18_mathjax_document', 'C18_parse']
+GEN = ['gen_escapes', 'gen_dispatch', 'gen_regex']
+THEOREMS = ['C18_dispatch', 'C18_options_forwarded', 'C18_render', 'C18_toc_any_tree', 'C18_mathjax_document', 'C18_parse', 'C18_math_needs_dollar',
+            'C18_wiki_needs_brackets_and_bar']
 TRUSTED = ['harness/gen/gen_dispatch.py reads the method-resolution order of the live classes (inspect) and the constructors (ast)',
            'Model/Contrib.v: hand-written model of the four overrides (render_heading, render_document, render_math, render_block_code); '
            'Pygments highlight is a parameter of the model (supplied from the real library in the correspondence run)',
